@@ -10,8 +10,36 @@ static void out_match(const QRegularExpressionMatch &m, int ncap)
 }
 extern "C" void h_conf_regex()
 {
-    int which = vf_range(0, 9);
+    int which = vf_range(0, 11);
     vf_out_int(which);
+    if (which >= 10) {
+        // rotated-file-name expressions (deterministic-scan fragment of the model) on structured names with random edits
+        static const unsigned short menu[] = { 'a', '.', '-', '0', '1', '9', 'l', 'g', 'z', '2', '4', '5', 'x', '\\' };
+        static const char *dates[] = { "2024-05-10", "2024-05-11", "2024-5-10", "20240510", "2024-05-1" };
+        static const char *idx[] = { "1", "9", "10", "007", "", "1x", "12345" };
+        static const char *tails[] = { ".l", ".l.gz", "", ".gz", ".l.gzz", ".lx", ".l.g" };
+        int di = vf_range(0, 4); int ii = vf_range(0, 6); int ti = vf_range(0, 6);
+        QString subj = QStringLiteral("a.") + QString::fromLatin1(dates[di]) + QStringLiteral(".") + QString::fromLatin1(idx[ii]) + QString::fromLatin1(tails[ti]);
+        int nedit = vf_range(0, 2);
+        for (int e = 0; e < 2; ++e) {
+            int pos = vf_range(0, 24); int k = vf_range(0, 13); int op = vf_range(0, 2);
+            if (e < nedit && pos <= subj.size()) {
+                if (op == 0) subj.insert(pos, QString(QChar(menu[k])));
+                else if (op == 1 && pos < subj.size()) subj.remove(pos, 1);
+                else if (pos < subj.size()) { subj.remove(pos, 1); subj.insert(pos, QString(QChar(menu[k]))); }
+            }
+        }
+        int form = vf_range(0, 3);
+        QString pattern;
+        if (form == 0) pattern = QStringLiteral("^%1\\.%2\\.(\\d+)\\.%3(\\.gz)?$").arg(QRegularExpression::escape(QStringLiteral("a")), QRegularExpression::escape(QStringLiteral("2024-05-10")), QRegularExpression::escape(QStringLiteral("l")));
+        else if (form == 1) pattern = QStringLiteral("^%1\\.\\d{4}-\\d{2}-\\d{2}\\.\\d+\\.%2(\\.gz)?$").arg(QRegularExpression::escape(QStringLiteral("a")), QRegularExpression::escape(QStringLiteral("l")));
+        else if (form == 2) pattern = QStringLiteral("^%1\\.%2\\.(\\d+)(\\.gz)?$").arg(QRegularExpression::escape(QStringLiteral("a")), QRegularExpression::escape(QStringLiteral("2024-05-10")));
+        else pattern = QStringLiteral("^%1\\.\\d{4}-\\d{2}-\\d{2}\\.\\d+(\\.gz)?$").arg(QRegularExpression::escape(QStringLiteral("a")));
+        out_str(subj);
+        auto re = QRegularExpression(pattern);
+        out_match(re.match(subj), (form == 0 || form == 2) ? 2 : 1);
+        return;
+    }
     if (which == 0 || which == 1) {
         static const unsigned short menu[] = { 'a', '.', '=', ' ', 't', 'r', 'u', 'e', 'd', 'b', 'g', '*', 'f', 'l', 's', 'i', 'n', 'o', '\t' };
         QString subj;
